@@ -1046,13 +1046,17 @@ func C10(ctx *core.Ctx) error {
 		}
 	}
 	if !toyRes.Accepted {
-		return core.Inconcl("Proofs_Trace.tla does not explain toy line %d of %d: %s - the specification and the code (or the harness's transcription) disagree on a toy-sized honest transcript",
-			toyRes.FailLine, toyRes.Lines, core.Short(toyRes.FailText, 300))
-	}
-	if !toyRes.SelfTest {
+		if len(ctx.Violations()) == 0 {
+			return core.Inconcl("Proofs_Trace.tla does not explain toy line %d of %d: %s - the specification and the code (or the harness's transcription) disagree on a toy-sized honest transcript",
+				toyRes.FailLine, toyRes.Lines, core.Short(toyRes.FailText, 300))
+		}
+		ctx.Note("Proofs_Trace.tla does not explain toy line %d (%s): consistent with the violation(s) reported above", toyRes.FailLine, core.Short(toyRes.FailText, 200))
+	} else if !toyRes.SelfTest {
 		return core.Inconcl("self test: TLC did not refuse the toy transcript whose vector the harness had corrupted - the binding is not effective")
 	}
-	cov.AddTraces(toyRes.Lines)
+	if toyRes.Accepted {
+		cov.AddTraces(toyRes.Lines)
+	}
 	if mcErr != nil {
 		return core.Inconcl("completeness model: %v", mcErr)
 	}
